@@ -99,15 +99,57 @@ Proof.
   - reflexivity.
 Qed.
 
+(** the append-at-the-end formulation of the Go loop ([cur] = topic[levelStart:i]);
+    the model's [split_go] accumulates the level in reverse and is proved equal below *)
+Fixpoint split_go_app (s cur : string) (wc : bool) : option (list level) :=
+  match s with
+  | EmptyString => if lvl_bad cur wc then None else Some [cur]
+  | String ch r =>
+      if Ascii.eqb ch "/" then
+        if lvl_bad cur wc then None
+        else match split_go_app r "" false with
+             | Some ls => Some (cur :: ls)
+             | None => None
+             end
+      else if Ascii.eqb ch "+" then split_go_app r (app1 cur ch) true
+      else if Ascii.eqb ch "#" then
+        match r with
+        | EmptyString => split_go_app r (app1 cur ch) true
+        | _ => None
+        end
+      else split_go_app r (app1 cur ch) wc
+  end.
+
+Lemma srev_app_acc : forall s acc, srev_app s acc = (srev_app s "" ++ acc)%string.
+Proof.
+  induction s as [|c r IH]; intro acc; [reflexivity|].
+  cbn [srev_app]. rewrite (IH (String c acc)), (IH (String c "")).
+  rewrite <- sapp_assoc1. unfold app1. reflexivity.
+Qed.
+
+Lemma srev_cons (c : ascii) (r : string) : srev (String c r) = app1 (srev r) c.
+Proof. unfold srev, app1. cbn [srev_app]. apply srev_app_acc. Qed.
+
+Lemma split_go_eq : forall s rcur wc, split_go s rcur wc = split_go_app s (srev rcur) wc.
+Proof.
+  induction s as [|ch r IH]; intros rcur wc; [reflexivity|].
+  cbn [split_go split_go_app]. rewrite <- !srev_cons.
+  destruct (Ascii.eqb ch "/").
+  - rewrite (IH "" false). reflexivity.
+  - destruct (Ascii.eqb ch "+"); [apply IH|].
+    destruct (Ascii.eqb ch "#"); [|apply IH].
+    destruct r; [apply IH | reflexivity].
+Qed.
+
 Lemma split_go_spec : forall s cur,
   has_hash cur = false ->
-  split_go s cur (has_wild cur) =
+  split_go_app s cur (has_wild cur) =
     (if wf_levels (pre cur (split_slash s)) then Some (pre cur (split_slash s)) else None).
 Proof.
   induction s as [|ch r IH]; intros cur Hc.
   - simpl. rewrite sapp_nil_r. rewrite lvl_bad_spec.
     destruct (lvl_ok cur || (cur =? "#")); reflexivity.
-  - cbn [split_go split_slash].
+  - cbn [split_go_app split_slash].
     destruct (Ascii.eqb ch "/") eqn:Es.
     + (* '/' closes the level *)
       cbn [pre]. rewrite sapp_nil_r.
@@ -140,7 +182,7 @@ Proof.
            destruct r as [|c2 r2].
            ++ (* '#' is the last byte *)
               simpl in Er. injection Er as <- <-.
-              cbn [split_go].
+              cbn [split_go_app].
               assert (Hw : has_wild (app1 cur "#") = true).
               { unfold app1. rewrite has_wild_app. simpl. now rewrite orb_true_r. }
               pose proof (lvl_bad_spec (app1 cur "#")) as Hb. rewrite Hw in Hb. rewrite Hb.
@@ -167,7 +209,7 @@ Qed.
 Theorem split_topic_spec (s : string) :
   split_topic s = if wf_filter s then Some (split_slash s) else None.
 Proof.
-  unfold split_topic, wf_filter.
+  unfold split_topic, wf_filter. rewrite split_go_eq. change (srev "") with "".
   pose proof (split_go_spec s "" eq_refl) as H. cbn [has_wild] in H.
   rewrite (pre_empty _ (split_slash_nonempty s)) in H. exact H.
 Qed.
@@ -293,4 +335,25 @@ Proof.
     + cbn [matchesb]. rewrite IH. apply orb_true_iff. right. rewrite andb_true_r. reflexivity.
     + cbn [matchesb]. rewrite IH, String.eqb_refl. apply orb_true_iff. right.
       rewrite andb_true_r. apply orb_true_r.
+Qed.
+
+(** length alone never makes a filter or a topic name malformed: well-formedness only
+    looks at the placement of '+' and '#'; in particular the longest string an MQTT packet
+    can carry (65535 bytes, two-byte length prefix) is accepted like any other *)
+Definition accepts_as (s : string) (ls : list level) : bool :=
+  match split_topic s with Some l => list_eqb String.eqb l ls | None => false end.
+
+Theorem length_never_malformed :
+  (forall s, wf_filter s = true -> split_topic s = Some (split_slash s)) /\
+  (forall T, has_wild T = false -> split_topic T = Some (split_slash T)) /\
+  accepts_as (srep "x" 65535) [srep "x" 65535] = true /\
+  accepts_as (sx [("dev/", 1%N); ("x", 65525%N); ("/state", 1%N)]) ["dev"; srep "x" 65525; "state"] = true /\
+  accepts_as (srep "/" 65535) (repeat "" (N.to_nat 65536)) = true.
+Proof.
+  split; [|split; [|split; [|split]]].
+  - intros s H. rewrite split_topic_spec, H. reflexivity.
+  - intros T H. apply topic_name_accepted. exact H.
+  - vm_compute. reflexivity.
+  - vm_compute. reflexivity.
+  - vm_compute. reflexivity.
 Qed.
